@@ -78,7 +78,7 @@ member_assign = SpecMap("enum_member_assign", lambda p: mk(ast.Assign, targets=l
 
 
 class ParseEnumDefinition(Contract):
-    props = ("C04", "C18", "C06")
+    props = ("C04", "C18", "C06", "C01", "C05", "C19")
     target = "ariadne_codegen.client_generators.enums:EnumsGenerator._parse_enum_definition"
     use_at_calls = False
     frame_args = False
